@@ -205,6 +205,14 @@ struct Tally {
 
 /// Run all plans on their own OS threads (start barrier), collect, and judge against the process record.
 fn run_threads(case: &Case, origin: &str) -> Result<Tally, Outcome> {
+    // a duplicate was already seen in this process: the statement (process lifetime) is violated for
+    // good, nothing a later case does can change that; answer at once (keeps shrinking cheap)
+    if let Some((id, first_origin)) = seen().lock().unwrap().dup.clone() {
+        return Err(Outcome::fail(
+            "C03:duplicate-connection-id",
+            json!({"id": id, "scope": "process lifetime", "second_occurrence_from": first_origin, "note": "duplicate observed earlier in this process; this case was not executed"}),
+        ));
+    }
     let t = case.threads.len();
     let barrier = Arc::new(Barrier::new(t));
     let mut outs: Vec<ThreadOut> = Vec::with_capacity(t);
